@@ -179,7 +179,7 @@ Section FullSync.
         if (Z.of_nat (length metas1) <? batch) && negb (match rest with [] => true | _ => false end)
         then fs_loop rest metas1 stats1 leaders1 last
         else Msg last metas1 stats1 leaders1
-             :: fs_loop rest (keep "metas" metas1) (keep "stats" stats1) (keep "leaders" leaders1)
+             :: fs_loop rest (keep "Regions" metas1) (keep "RegionStats" stats1) (keep "RegionLeaders" leaders1)
                         (last + Z.of_nat (length metas1))
     end.
   Definition full_sync (rs : list rinfo) : list msg := fs_loop rs [] [] [] 0.
@@ -278,6 +278,29 @@ Definition apply_msg (f : fstate) (m : msg) : fstate :=
             else FS (f_cache f) (f_saved f) (reset_with_index (f_hist f) (g_start m) true) in
   fold_left apply_region (decode m) f1.
 
+(* the same with the outcome of the follower's own SaveRegion per region: the cache is updated first in any case;
+   the history records the region only when the save succeeded (`if err == nil { s.history.Record(region) }`) *)
+Definition apply_region_ok (f : fstate) (ro : rinfo * bool) : fstate :=
+  let '(r, ok) := ro in
+  if ok then apply_region f r
+  else FS (check_and_put (f_cache f) r) (f_saved f) (f_hist f).
+Fixpoint with_oks (rs : list rinfo) (oks : list bool) : list (rinfo * bool) :=
+  match rs with
+  | [] => []
+  | r :: rest => (r, match oks with [] => true | o :: _ => o end) :: with_oks rest (match oks with [] => [] | _ :: t => t end)
+  end.
+Definition apply_msg_ok (f : fstate) (m : msg) (oks : list bool) : fstate :=
+  let f1 := if next_index (buf (f_hist f)) =? g_start m then f
+            else FS (f_cache f) (f_saved f) (reset_with_index (f_hist f) (g_start m) true) in
+  fold_left apply_region_ok (with_oks (decode m) oks) f1.
+
+(* a sync session: what the leader would send, how many of its messages were delivered before the stream broke,
+   and which of the follower's saves failed *)
+Record session := Sess { s_msgs : list msg; s_delivered : nat; s_fails : Z -> bool (* by region id *) }.
+Definition oks_of (fails : Z -> bool) (m : msg) : list bool := map (fun r => negb (fails (m_id r))) (g_regions m).
+Definition run_session (f : fstate) (s : session) : fstate :=
+  fold_left (fun f m => apply_msg_ok f m (oks_of (s_fails s) m)) (firstn (s_delivered s) (s_msgs s)) f.
+
 Definition finit (cap : Z) (kv : option Z) : fstate := FS [] [] (BS (new_buf cap true kv) kv).
 
 (* ------------------------------------------------------------------------------------------ *)
@@ -326,6 +349,12 @@ Inductive case :=
        ids in its region storage (sorted, distinct) *)
 | CBcast (leader_persisted : option Z) (pending : list rinfo)
          (msgs : list msg) (fcache : list rinfo) (fnext : Z)
+| CCut (leader_persisted : option Z) (regions : list rinfo) (cut : nat) (fail_ids : list Z) (pending : list rinfo)
+       (msgs : list msg) (fcache : list rinfo) (fnext : Z)
+    (* an empty follower whose full synchronisation is cut after `cut` batches (the connection drops, the leader's
+       syncer restarts over the same storage), which reconnects with the index it has reached, gets whatever the
+       leader answers to that index, and then receives the broadcasts of `pending`; its own SaveRegion fails for the
+       regions in `fail_ids`.  `msgs` = the messages actually delivered, in order. *)
 | CChain (leader_persisted : option Z) (leader_records regions : list rinfo)
          (follower_persisted : option Z) (follower_stored : list rmeta) (pending : list rinfo)
          (msgs : list msg) (fcache : list rinfo) (fnext : Z).
@@ -367,6 +396,18 @@ Definition model_chain (lp : option Z) (lrecs regions : list rinfo) (fp : option
   let ms2 := run_server_batches (S (length pending)) (next_index (buf lh)) pending in
   let f := fold_left apply_msg (ms1 ++ ms2) f1 in
   SO (ms1 ++ ms2) (sort_by_id (f_cache f)) (next_index (buf (f_hist f))) [].
+
+Definition model_cut (lp : option Z) (regions : list rinfo) (cut : nat) (fail_ids : list Z) (pending : list rinfo) : sync_out :=
+  let lh := leader_hist lp [] in
+  let fails := fun id => memZ id fail_ids in
+  let f0 := finit Gen_C16.defaultHistoryBufferSize None in
+  let s1 := Sess (full_sync_impl regions) cut fails in
+  let f1 := run_session f0 s1 in
+  let '(_, ms2) := sync_history (buf lh) regions (next_index (buf (f_hist f1))) in
+  let ms3 := run_server_batches (S (length pending)) (next_index (buf lh)) pending in
+  let s2 := Sess (ms2 ++ ms3) (length (ms2 ++ ms3)) fails in
+  let f := run_session f1 s2 in
+  SO (firstn cut (full_sync_impl regions) ++ ms2 ++ ms3) (sort_by_id (f_cache f)) (next_index (buf (f_hist f))) [].
 
 Definition model_bcast (lp : option Z) (pending : list rinfo) : sync_out :=
   let start := reload_index true lp in
@@ -414,6 +455,8 @@ Definition check_case (c : case) : option detail :=
       check_sync (model_bcast lp pending) msgs fcache fnext None
   | CChain lp lrecs regions fp stored pending msgs fcache fnext =>
       check_sync (model_chain lp lrecs regions fp stored pending) msgs fcache fnext None
+  | CCut lp regions cut fail_ids pending msgs fcache fnext =>
+      check_sync (model_cut lp regions cut fail_ids pending) msgs fcache fnext None
   end.
 
 Fixpoint mismatches_from (n : nat) (cs : list case) : list (nat * detail) :=
@@ -515,6 +558,9 @@ Definition monitor (c : case) : option string :=
   | CChain lp lrecs regions fp stored pending msgs fcache fnext =>
       (* whatever was sent, in either phase, must be held with the leader's newest version *)
       mon_sent "sync+broadcast" (regions ++ pending) fcache (map (fun p => (O, snd p)) (number_batches 0 msgs))
+  | CCut lp regions cut fail_ids pending msgs fcache fnext =>
+      (* whatever was delivered, before or after the cut, must be held with the leader's newest version *)
+      mon_sent "cut+reconnect" (regions ++ pending) fcache (map (fun p => (O, snd p)) (number_batches 0 msgs))
   end.
 
 Fixpoint monitor_fails_from (n : nat) (cs : list case) : list (nat * string) :=
